@@ -1,4 +1,5 @@
 import Typegen.Validator
+import Typegen.ScanLemmas
 /-! # C11 — validator attributes become exactly the declared Zod constraints
 
 Two stages: `VP.parseValidator` (mirror of `ValidatorParser`, a substring scanner over the attribute's
@@ -94,5 +95,19 @@ theorem K11d_witness :
   decide +kernel
 /-- K11e: unescape order — `\\n` (backslash, n) becomes backslash + newline -/
 theorem K11e_witness : unescapeMsg cl!"dir\\\\new" = cl!"dir\\\new" := by decide +kernel
+
+
+/-! ## the scanning stage on the canonical fragment -/
+
+/-- **C11, scanner, unbounded**: for every pair of numerals `A`, `B` and every message `M` free of `"`, `\` and `)`,
+    from the token text of `#[validate(length(min = A, max = B, message = "M"))]` the scanner reads exactly the
+    declared bounds and exactly the declared message (the excluded characters are the known findings K11b, K11e) -/
+theorem C11_scan_length_canonical (a b m : Str) (ha : SL.Digits a) (hb : SL.Digits b)
+    (hq : '"' ∉ m) (hbs : '\\' ∉ m) (hp : ')' ∉ m) :
+    VP.parseLength (SL.tokensOf a b m) = some { min := VP.parseU64 a, max := VP.parseU64 b, message := some m } :=
+  SL.C11_scan_length_canonical a b m ha hb hq hbs hp
+
+/-- the canonical text is what the harness observes from proc_macro2 (instance) -/
+example : SL.tokensOf cl!"1" cl!"20" cl!"short text" = cl!"length (min = 1 , max = 20 , message = \"short text\")" := by decide +kernel
 
 end TG.C11
